@@ -1,4 +1,130 @@
-import RV.C11.Model
+import RV.C11.Lemmas
+/-
+  C11 — "Property paths denote the relation SPARQL defines, for every binding of the ends."
+
+  Specification (`rel`): SPARQL 1.1 §18.2.2 / §18.4 read as relational algebra over the graph —
+  a plain IRI is its set of (subject, object) pairs, `^` is the converse, `/` composition,
+  `|` union, `?` `*` `+` the reflexive / reflexive-transitive / transitive closure, `!(…)` the
+  negated property set.  The reflexive part of a closure is the identity on all terms, so a
+  zero-length match on a *given* term holds whether or not the term occurs in the graph; when
+  neither end is given the answers range over the nodes of the graph (ZeroLengthPath with two
+  variables).  `evalPath` is the model of rdflib's generators (Model.lean).
+-/
 namespace RV.C11
-theorem placeholder_c11 : True := trivial
+open Relation
+
+/-! ### Specification -/
+
+mutual
+/-- the relation a path denotes over graph `g` -/
+def rel (g : Graph) : Path → Rel
+  | .iri p => fun x y => (x, p, y) ∈ g
+  | .inv p => fun x y => rel g p y x
+  | .seq p ps => compList (rel g p) (relList g ps)
+  | .alt ps => unionList (relList g ps)
+  | .mul p m => closure m (rel g p)
+  | .neg fw bw => negRel g fw bw
+def relList (g : Graph) : List Path → List Rel
+  | [] => []
+  | p :: ps => rel g p :: relList g ps
+end
+
+/-- paths whose answers the property demands to be duplicate-free: closures, possibly under `^` -/
+def Path.isClosure : Path → Bool
+  | .mul _ _ => true
+  | .inv p => p.isClosure
+  | _ => false
+
+/-! ### Statements -/
+
+/-- For every graph, every path of any nesting depth and each of the four bound/unbound combinations
+    of the ends: the pairs produced are exactly the pairs of the denoted relation that agree with
+    the given ends (and lie on nodes of the graph when no end is given). -/
+def Statement_path_correct : Prop :=
+  ∀ (g : Graph) (p : Path) (s o : Option Term) (x y : Term),
+    (x, y) ∈ evalPath g p s o ↔
+      rel g p x y ∧ (∀ a, s = some a → x = a) ∧ (∀ b, o = some b → y = b) ∧
+        (s = none → o = none → x ∈ nodes g ∧ y ∈ nodes g)
+
+/-- Closures contain no duplicates (whatever multiplicities the inner path produces). -/
+def Statement_path_nodup : Prop :=
+  ∀ (g : Graph) (p : Path) (s o : Option Term), p.isClosure = true → (evalPath g p s o).Nodup
+
+/-- Closures terminate: the recursion of `_fwd` / `_bwd` never needs more than `|nodes g| + 1`
+    nested calls, on any graph (cyclic, self-loops) and for any inner path. -/
+def Statement_path_terminates : Prop :=
+  ∀ (g : Graph) (p : Path) (m : Mod) (s o : Option Term), mulOk g p m s o = true
+
+/-- A zero-length match on a given term holds even if the term does not occur in the graph. -/
+def Statement_zero_length_on_given_term : Prop :=
+  ∀ (g : Graph) (p : Path) (m : Mod) (a : Term), m.zero = true →
+    (a, a) ∈ evalPath g (.mul p m) (some a) none ∧ (a, a) ∈ evalPath g (.mul p m) none (some a) ∧
+    (a, a) ∈ evalPath g (.mul p m) (some a) (some a)
+
+/-! ### Proofs (structural induction on the path; the per-generator lemmas are in Lemmas.lean) -/
+
+mutual
+theorem rel_iso (g : Graph) : ∀ p : Path, Iso (nodes g) (rel g p)
+  | .iri p => by rw [rel]; exact tri_iso g p
+  | .inv p => by rw [rel]; exact inv_iso (rel_iso g p)
+  | .seq p ps => by rw [rel]; exact compList_iso _ _ (rel_iso g p) (relList_iso g ps)
+  | .alt ps => by rw [rel]; exact alt_iso (relList_iso g ps)
+  | .mul p m => by rw [rel]; exact closure_iso m (rel_iso g p)
+  | .neg fw bw => by rw [rel]; exact neg_iso g fw bw
+theorem relList_iso (g : Graph) : ∀ ps : List Path, ∀ S ∈ relList g ps, Iso (nodes g) S
+  | [] => by simp [relList]
+  | p :: ps => by
+    intro S hS
+    rw [relList] at hS
+    rcases List.mem_cons.mp hS with e | e
+    · exact e ▸ rel_iso g p
+    · exact relList_iso g ps S e
+end
+
+mutual
+theorem evalPath_correct (g : Graph) : ∀ p : Path, Correct (nodes g) (evalPath g p) (rel g p)
+  | .iri p => by rw [evalPath, rel]; exact tri_correct g p
+  | .inv p => by rw [evalPath, rel]; exact inv_correct (evalPath_correct g p)
+  | .seq p ps => by
+    rw [evalPath, rel]
+    exact seq_correct (evalPath_correct g p) (evalList_correct g ps) (rel_iso g p) (relList_iso g ps)
+  | .alt ps => by rw [evalPath, rel]; exact alt_correct (evalList_correct g ps)
+  | .mul p m => by rw [evalPath, rel]; exact mul_correct (evalPath_correct g p) (rel_iso g p) m
+  | .neg fw bw => by rw [evalPath, rel]; exact neg_correct g fw bw
+theorem evalList_correct (g : Graph) : ∀ ps : List Path, CorrectL (nodes g) (evalList g ps) (relList g ps)
+  | [] => by rw [evalList, relList]; exact .nil
+  | p :: ps => by rw [evalList, relList]; exact .cons (evalPath_correct g p) (evalList_correct g ps)
+end
+
+theorem path_correct : Statement_path_correct :=
+  fun g p s o x y => evalPath_correct g p s o x y
+
+theorem path_nodup_aux (g : Graph) : ∀ (p : Path) (s o : Option Term), p.isClosure = true →
+    (evalPath g p s o).Nodup
+  | .mul p m, s, o, _ => by rw [evalPath]; exact mul_nodup g _ m s o
+  | .inv p, s, o, h => by
+    rw [evalPath]
+    simp only [Path.isClosure] at h
+    exact nodup_invEval (path_nodup_aux g p o s h)
+  | .iri _, _, _, h => by simp [Path.isClosure] at h
+  | .seq _ _, _, _, h => by simp [Path.isClosure] at h
+  | .alt _, _, _, h => by simp [Path.isClosure] at h
+  | .neg _ _, _, _, h => by simp [Path.isClosure] at h
+
+theorem path_nodup : Statement_path_nodup := fun g p s o h => path_nodup_aux g p s o h
+
+theorem path_terminates : Statement_path_terminates :=
+  fun g p m s o => mulRun_ok (evalPath_correct g p) (rel_iso g p) m s o
+
+theorem zero_length_on_given_term : Statement_zero_length_on_given_term := by
+  intro g p m a hz
+  have hc : rel g (.mul p m) a a := by
+    rw [rel]
+    cases m with
+    | zeroOrOne => exact Or.inl rfl
+    | zeroOrMore => exact ReflTransGen.refl
+    | oneOrMore => simp [Mod.zero] at hz
+  refine ⟨(path_correct g _ _ _ a a).mpr ⟨hc, ?_⟩, (path_correct g _ _ _ a a).mpr ⟨hc, ?_⟩,
+    (path_correct g _ _ _ a a).mpr ⟨hc, ?_⟩⟩ <;> simp
+
 end RV.C11
